@@ -89,6 +89,12 @@ impl FunBuilder {
   pub fn capture_count(&self) -> u8 {
     self.capture_count
   }
+
+  /// The number of stack slots the parameters of this function occupy
+  #[inline]
+  pub fn parameter_slots(&self) -> usize {
+    self.arity.required_parameter()
+  }
 }
 
 #[cfg(laythe_verif)]
@@ -258,6 +264,12 @@ impl Fun {
   #[inline]
   pub fn max_slots(&self) -> usize {
     self.max_slot as usize
+  }
+
+  /// Number of stack slots the parameters of this function occupy
+  #[inline]
+  pub fn parameter_slots(&self) -> usize {
+    self.arity.required_parameter()
   }
 }
 
